@@ -875,6 +875,21 @@ func FH() []*Program {
 			{Name: "InitP", Request: "*T0", Provs: []Prov{fn("NewT0", nil, []string{"*T0"}, false)}},
 			{Name: "InitQ", Request: "*T1", Provs: []Prov{fn("NewT1", []string{"*str.Builder"}, []string{"*T1"}, false)}}}})
 	out = append(out, FT()...)
+	// a provider result nothing consumes whose type is the file's only use of a package, in an
+	// injector with goroutines (the var block skips the discarded result)
+	out = append(out, &Program{Family: "FH", Desc: "discarded result of an external type, goroutines", Types: typeNames(4),
+		ExtraImports: []string{`"bytes"`},
+		Decls: []Decl{{Name: "InitP", Request: "*T0", Provs: []Prov{
+			asyncFn("NewT1", nil, []string{"*T1"}),
+			asyncFn("NewT3", nil, []string{"*T3"}),
+			fn("NewT2B", []string{"*T1"}, []string{"*T2", "*bytes.Buffer"}, false),
+			fn("NewT0", []string{"*T2", "*T3"}, []string{"*T0"}, false)}}}})
+	out = append(out, &Program{Family: "FH", Desc: "discarded result of an external type, no goroutines", Types: typeNames(3),
+		ExtraImports: []string{`"bytes"`},
+		Decls: []Decl{{Name: "InitP", Request: "*T0", Provs: []Prov{
+			fn("NewT1", nil, []string{"*T1"}, false),
+			fn("NewT2B", []string{"*T1"}, []string{"*T2", "*bytes.Buffer"}, false),
+			fn("NewT0", []string{"*T2"}, []string{"*T0"}, false)}}}})
 	// two files of one package, each with an async injector and different imports
 	out = append(out, &Program{Family: "FH", Desc: "two files, async injectors", Types: typeNames(3), Files: [][]int{{0}, {1}}, Decls: []Decl{
 		coreDecl("InitP", [][]int{{1, 2}, {}, {}}, 0b110, 0b010, -1, 0),
@@ -1122,5 +1137,20 @@ func FT() []*Program {
 			asyncFn("NewT1", nil, []string{"*T1"}),
 			asyncFn("NewT2", []string{"*T1"}, []string{"*T2"}),
 			fn("NewT0", []string{"*extapp.Server", "*T2"}, []string{"*T0"}, false)}}}})
+	return out
+}
+
+// FS is the star family: three input-free providers and a root needing all of them, every
+// Async subset and every set of fallible providers among the three (several fallible providers
+// at once, on the calling goroutine and in goroutines).
+func FS() []*Program {
+	var out []*Program
+	deps := [][]int{{1, 2, 3}, {}, {}, {}}
+	for async := uint(0); async < 16; async += 2 {
+		for errs := uint(0); errs < 16; errs += 2 {
+			out = append(out, &Program{Family: "FS", Types: typeNames(4), Decls: []Decl{coreDecl("InitP", deps, async, errs, -1, 0)},
+				Desc: fmt.Sprintf("star async=%04b err=%04b", async, errs)})
+		}
+	}
 	return out
 }
